@@ -21,7 +21,9 @@ QUICK_BUDGET_S = 150
 THOROUGH_BUDGET_S = 900
 CHUNK = 50
 RULE = ("seeded histories of 1-3 client connections (shared or distinct source addresses, sequential or overlapping) "
-        "against the real proxy with proxyauth = single user | any | htpasswd ({SHA} and bcrypt entries, virtual file), in "
+        "against the real proxy with proxyauth = single user | any | htpasswd ({SHA}, bcrypt and corrupt-hash entries, "
+        "virtual file; valid and wrong passwords of 71/72/73/200+ bytes in 1-, 2- and 3-byte UTF-8 for existing, "
+        "corrupt-hash and unknown users, i.e. also credentials for which the validator itself raises), in "
         "modes regular, upstream, reverse, transparent and socks5. Each connection mixes absolute-form requests, "
         "pipelined batches, CONNECT (retry after 407 on the same connection) followed by plain-HTTP (or, 1 in 5, HTTPS) "
         "requests inside the tunnel, reverse/transparent origin-form requests and SOCKS5 method/user-pass negotiations, each with credentials "
@@ -48,6 +50,10 @@ EXPECTED_PROBES = ["accepted_forwarded", "rejected_challenged", "connect_accepte
                    "tunnel_inner_forwarded", "tunnel_inner_https", "socks_accepted", "socks_rejected", "socks_no_userpass_method",
                    "reverse_401", "proxy_407", "either_verdict", "colon_password_presented", "non_ascii_presented",
                    "htpasswd_runs", "bcrypt_entries", "same_address_clients", "pipelined_batches", "handled_as_raw_tcp",
+                   "password_71_or_72_bytes_presented", "password_over_72_bytes_presented",
+                   "password_over_72_bytes_presented_socks5", "multibyte_password_over_72_bytes",
+                   "valid_password_over_72_bytes", "over_72_bytes_for_bcrypt_user", "over_72_bytes_for_bcrypt_user_socks5",
+                   "over_72_bytes_for_unknown_user", "corrupt_hash_user_named",
                    "body_requests", "chunked_body_requests", "expect_100_continue", "body_over_stream_threshold",
                    "unauthenticated_body_over_stream_threshold", "over_body_size_limit"]
 
@@ -57,6 +63,8 @@ MODES = [("regular", 5), ("upstream:http://p.test:3128", 2), ("reverse:http://r.
 
 USERS = ["user", "alice", "bob", "Admin", "m.mustermann", "üser", "用户", "x"]
 PASSWORDS = ["pass", "s3cr3t!", "p@ss w0rd", "", "pässwörd", "密码", "pa:ss", ":lead", "trail:", "a:b:c", "hunter2"]
+# valid passwords at and beyond 72 bytes of UTF-8 (71, 72, 73, 200 bytes ASCII; 72/80 bytes in 2-byte, 72/75 in 3-byte chars)
+LONG_PASSWORDS = ["p" * 71, "p" * 72, "p" * 73, "p" * 200, "é" * 36, "é" * 40, "密" * 24, "密" * 25]
 
 
 def _wchoice(r, items):
@@ -84,7 +92,8 @@ class Model:
         if self.kind == "single":
             self.pairs = {vspec["user"]: vspec["pass"]}
         elif self.kind == "htpasswd":
-            self.pairs = {u: p for u, p, _ in vspec["users"]}
+            # an entry whose hash is corrupt matches no password at all
+            self.pairs = {u: p for u, p, k in vspec["users"] if k != "corrupt"}
         else:
             self.pairs = {}
 
@@ -212,12 +221,20 @@ def gen_validator(r):
     if k == "single":
         u = r.choice(USERS)
         p = r.choice([x for x in PASSWORDS if ":" not in x])  # "user:pa:ss" is not a configurable single-user spec
+        if r.random() < 0.1:
+            p = r.choice(LONG_PASSWORDS)
         return {"kind": "single", "user": u, "pass": p}
     if k == "any":
         return {"kind": "any"}
     users = []
-    for u in r.sample(USERS, r.choice([1, 2, 3])):
-        users.append([u, r.choice(PASSWORDS), r.choice(["sha", "sha", "bcrypt"])])
+    for i, u in enumerate(r.sample(USERS, r.choice([1, 2, 3, 4]))):
+        kind = r.choice(["sha", "sha", "bcrypt", "bcrypt", "corrupt"])
+        if i == 0 and kind == "corrupt":
+            kind = "bcrypt"   # at least one entry can log in
+        p = r.choice(LONG_PASSWORDS) if r.random() < 0.15 else r.choice(PASSWORDS)
+        if kind == "bcrypt" and len(p.encode("utf-8")) > 72:
+            kind = "sha"      # bcrypt itself refuses to hash more than 72 bytes
+        users.append([u, p, kind])
     return {"kind": "htpasswd", "users": users}
 
 
@@ -225,12 +242,28 @@ def good_pairs(r, v):
     if v["kind"] == "single":
         return [(v["user"], v["pass"])]
     if v["kind"] == "htpasswd":
-        return [(u, p) for u, p, _ in v["users"]]
-    return [(r.choice(USERS), r.choice(PASSWORDS)) for _ in range(3)]
+        return [(u, p) for u, p, k in v["users"] if k != "corrupt"]
+    return [(r.choice(USERS), r.choice(LONG_PASSWORDS if r.random() < 0.15 else PASSWORDS)) for _ in range(3)]
+
+
+# wrong passwords around bcrypt's 72-byte input limit (ASCII, 2-byte and 3-byte UTF-8); letters never used in a
+# configured password, so none of them is a prefix/extension of a valid one
+LONG_WRONG = {"long71": "Z" * 71, "long72": "Z" * 72, "long73": "Z" * 73, "long200": "Z" * 200,
+              "long_mb72": "ß" * 36, "long_mb80": "ß" * 40, "long_mb75": "界" * 25, "long_mb240": "界" * 80}
 
 
 def bad_pair(r, v, good):
     u, p = r.choice(good)
+    if v["kind"] == "htpasswd" and r.random() < 0.5:
+        # name any user of the file, also one whose hash line is corrupt
+        u, p, kind = r.choice(v["users"])
+        if kind == "corrupt" and r.random() < 0.5:
+            return (u, p), "corrupt_hash_user"
+    if r.random() < (0.4 if v["kind"] == "htpasswd" else 0.15):
+        k = r.choice(sorted(LONG_WRONG))
+        if r.random() < 0.2:
+            return ("no" + u, LONG_WRONG[k]), k + "_unknown_user"
+        return (u, LONG_WRONG[k]), k
     k = r.choice(["wrong_pass", "wrong_user", "prefix", "suffix_colon", "case", "swap", "split_colon", "empty_pass"])
     if k == "wrong_pass":
         return (u, "not-" + p), k
@@ -459,7 +492,9 @@ def htpasswd_text(v) -> str:
     for u, p, kind in v["users"]:
         if kind == "bcrypt":
             import bcrypt
-            h = bcrypt.hashpw(p.encode("utf-8"), BCRYPT_SALT.encode()).decode("ascii")
+            h = bcrypt.hashpw(p.encode("utf-8"), BCRYPT_SALT.encode()).decode("ascii")   # cost 4: about a millisecond
+        elif kind == "corrupt":
+            h = "$2b$04$tooshort"   # looks like bcrypt to the file parser, is not a hash
         else:
             h = "{SHA}" + base64.b64encode(hashlib.sha1(p.encode("utf-8")).digest()).decode("ascii")
         lines.append(f"{u}:{h}")
@@ -718,6 +753,30 @@ def oracle(sc, log, recs, w):
     def bump(k, n=1):
         probes[k] = probes.get(k, 0) + n
 
+    entry_kind = {u: k for u, _, k in sc["validator"].get("users", [])}
+
+    def long_probes(pair, verdict, socks=False):
+        """Probes for passwords around bcrypt's 72-byte limit and for users whose htpasswd hash cannot be evaluated."""
+        if not pair:
+            return
+        u, p = pair
+        n = len(p.encode("utf-8"))
+        sfx = "_socks5" if socks else ""
+        if n in (71, 72):
+            bump("password_71_or_72_bytes_presented")
+        if n > 72:
+            bump("password_over_72_bytes_presented" + sfx)
+            if not p.isascii():
+                bump("multibyte_password_over_72_bytes")
+            if verdict == "accept":
+                bump("valid_password_over_72_bytes")
+            if entry_kind.get(u) == "bcrypt":
+                bump("over_72_bytes_for_bcrypt_user" + sfx)
+            elif sc["validator"]["kind"] == "htpasswd" and u not in entry_kind:
+                bump("over_72_bytes_for_unknown_user")
+        if entry_kind.get(u) == "corrupt":
+            bump("corrupt_hash_user_named" + sfx)
+
     if sc["validator"]["kind"] == "htpasswd":
         bump("htpasswd_runs")
         bump("bcrypt_entries", sum(1 for _, _, k in sc["validator"]["users"] if k == "bcrypt"))
@@ -803,6 +862,7 @@ def oracle(sc, log, recs, w):
                 verdict, pair = verdict_socks(model, ub, pb)
                 label = step.get("label", "")
             feats, main_feat = features(pair)
+            long_probes(pair, verdict, socks=True)
             if feats["colon_in_password"]:
                 bump("colon_password_presented")
             if feats["non_ascii"]:
@@ -860,6 +920,7 @@ def oracle(sc, log, recs, w):
         verdict, pair = verdict_http(model, step.get("cred"), path_header)
         label = (step.get("cred") or {}).get("label", "missing")
         feats, main_feat = features(pair)
+        long_probes(pair, verdict)
         if feats["colon_in_password"]:
             bump("colon_password_presented")
         if feats["non_ascii"]:
@@ -952,10 +1013,16 @@ def oracle(sc, log, recs, w):
             if leaked:
                 v.append({"class": "credential_forwarded", "key": {"path": path, "header": path_header},
                           "msg": f"client {ci}: {kind} r{tok}: {path_header} {leaked!r} reached {e['zone']} peer {e['addr']}"})
-    if w.crashes:
+    # An exception that escapes an addon hook is logged and swallowed by the addon manager ("Addon error"); the proxy
+    # goes on.  Whether that is harmless is decided by the outcome checks above (fail-closed: the SOCKS5 negotiation is
+    # refused; fail-open would show up as unauthenticated_forwarded), so it is counted, not reported as a crash.
+    crashes = [c for c in w.crashes if not c[1].startswith("Addon error")]
+    if len(crashes) < len(w.crashes):
+        bump("addon_error_logged", len(w.crashes) - len(crashes))
+    if crashes:
         # a crashed layer leaves requests unanswered: report the crash instead of what follows from it, but never hide
         # that something unauthenticated travelled on or that a credential leaked
-        t, msg, tb = w.crashes[0]
+        t, msg, tb = crashes[0]
         v = [{"class": "crash", "key": {"where": tb.split(" @ ")[-1] if " @ " in tb else msg[:60], "exc": tb.split(":")[0],
                                         "unauthenticated_streamed_request": unauth_streamed},
               "msg": f"t={t:.6f} {msg} {tb}" + (" -- an unauthenticated request whose body crosses stream_large_bodies: "
